@@ -42,7 +42,7 @@ R_SCOPE = clause(UR, 'post:python_scoping', ['C05', 'C06'], 'P')
 V_SHAPE = clause(UV, 'post:call_shape', ['C06'], 'B')
 V_FLAGS = clause(UV, 'post:star_flags', ['C05', 'C06'], 'B')
 V_RAISE = clause(UV, 'raises:nothing', ['C07', 'C05'], 'B')
-T_BIND = clause(UV, 'table:binder_handled', ['C05'], 'P')
+T_BIND = clause(UV, 'table:binder_handled', ['C05', 'C06', 'C07'], 'P')      # (an exception out of the visitor escapes sigtools.signature: C07)
 
 
 # =========================================================================== module-level resolve_name
